@@ -83,7 +83,7 @@ SelectionDefined(pts, g, DEN) == g[1] >= 1 /\ g[2] >= 1 /\ g[3] >= 1 /\ Cardinal
 (* the selected indices name each point of the mesh g exactly once (any order, any of several copies of a point) *)
 EachMeshPointOnce(sel, pts, g, DEN) ==
    /\ \A q \in 1..Len(sel) : sel[q] + 1 \in 1..Len(pts) /\ OnGrid(pts[sel[q] + 1], g, DEN)
-   /\ \A q, r \in 1..Len(sel) : q # r => pts[sel[q] + 1] # pts[sel[r] + 1]
+   /\ Cardinality({pts[sel[q] + 1] : q \in 1..Len(sel)}) = Len(sel)         \* pairwise different points
    /\ Len(sel) = NPts(g)
 (* n divides DEN in every direction *)
 IsCompleteMesh(pts, n, DEN) == PtSet(pts) = {MeshSeq(n, DEN)[q] : q \in 1..NPts(n)}
